@@ -45,6 +45,16 @@ def _pos_class(world, fault):
     return "only" if n == 1 else ("first" if i == 0 else ("last" if i == n - 1 else "middle"))
 
 
+def _row_type(world, fault):
+    if "row" not in fault or "table" not in fault or "sheet" not in fault:
+        return "-"
+    try:
+        t = faults._find_table(faults._find_sheet(world, fault["sheet"]), fault["table"])  # pylint: disable=protected-access
+        return t["rows"][fault["row"]].get("transaction_type", "-")
+    except (KeyError, IndexError):
+        return "-"
+
+
 def _choose_faults(rng, world, opts, facts, k):
     allf = faults.enumerate_faults(world, opts, facts)
     by_class = {}
@@ -63,7 +73,12 @@ def _choose_faults(rng, world, opts, facts, k):
         if r < 0.5:
             edge = [f for f in cands if _pos_class(world, f) in ("last", "first", "only")]
             cands = edge or cands
-        chosen.append(rng.choice(cands))
+        # uniform over (kind, transaction type of the faulted row), then over positions: a check that is weakened for one transaction
+        # type only (STAKING in the OUT table, FEE, GIFT ...) must not hide behind the many SELL and BUY rows
+        groups = {}
+        for f in cands:
+            groups.setdefault((f["kind"], _row_type(world, f)), []).append(f)
+        chosen.append(rng.choice(groups[rng.choice(sorted(groups))]))
     return chosen, len(allf)
 
 
@@ -122,7 +137,7 @@ def _fault_applicable(world, f):
                 t = faults._find_table(s, f["table"])  # pylint: disable=protected-access
                 if "row" in f and f["row"] >= len(t["rows"]):
                     return False
-                if f["kind"] in ("repeat_table", "data_outside_table", "delete_header") and not t["rows"]:
+                if f["kind"] in ("repeat_table", "repeat_table_other_case", "data_outside_table", "delete_header") and not t["rows"]:
                     return False
                 if f["kind"] == "delete_table_end_at_eof" and s["tables"][-1]["type"] != f["table"]:
                     return False
@@ -311,7 +326,7 @@ def _retarget(old, new, f):
     except KeyError:
         return None
     if "row" not in f:
-        return f if (t_new["rows"] or f["kind"] not in ("repeat_table", "delete_header")) else None
+        return f if (t_new["rows"] or f["kind"] not in ("repeat_table", "repeat_table_other_case", "delete_header")) else None
     target = t_old["rows"][f["row"]]
     for i, r in enumerate(t_new["rows"]):
         if r.get("unique_id") == target.get("unique_id") and r.get("timestamp") == target.get("timestamp"):
@@ -331,14 +346,24 @@ def _kind_sweep_cases(master, facts):
     for k, (country, schedule) in enumerate(shapes):
         seed = gen.case_seed(master, PROP + "-sweep", k)
         rng = random.Random(seed)
-        swarm = {"optional_cols": True, "permute": k % 2 == 0, "shapes": False, "n_assets": 2, "n_rows": 6, "mixed_tz": True, "need_uid": True, "schedule": True, "window": False}
+        swarm = {"optional_cols": True, "permute": k % 2 == 0, "shapes": False, "n_assets": 2, "n_rows": 6 if k else 40, "mixed_tz": True, "need_uid": True, "schedule": True, "window": False}
         world = None
+        best = None
         for _ in range(200):
             world = W.gen_world(rng, swarm, country)
             kinds = {t["type"] for s in world["sheets"] for t in s["tables"] if t["rows"]}
             fee_intra = any(W.D(r["crypto_sent"]) > W.D(r["crypto_received"]) for _, t, r in W.all_rows(world) if t == "INTRA")
             if W.validate(world)[0] and kinds == {"IN", "OUT", "INTRA"} and fee_intra:
-                break
+                if k:
+                    break
+                # the first (larger) world should hold every transaction type of every table, so that each numeric fault kind meets each type
+                types = {(t, r.get("transaction_type")) for _, t, r in W.all_rows(world)}
+                if best is None or len(types) > best[0]:
+                    best = (len(types), world)
+                if len(types) >= len(W.IN_TYPES) + len(W.OUT_TYPES) + 1:
+                    break
+        if not k and best is not None:
+            world = best[1]
         opts = gen.gen_options(rng, world, country, facts[country], swarm)
         opts.update({"neg": False, "asset": None, "outdir": "out", "path_style": "rel", "files_in": "", "prefix": "", "method": None, "lang": None, "from": None, "to": None})
         if schedule:
@@ -349,7 +374,8 @@ def _kind_sweep_cases(master, facts):
         seen = set()
         chosen = []
         for f in faults.enumerate_faults(world, opts, facts):
-            key = (f["class"], f["kind"], f.get("table"), f.get("field"), f.get("section"), f.get("value") if f["class"] in ("cmdline", "config") else None, f.get("pair"), f.get("frac"), f.get("variant"))
+            key = (f["class"], f["kind"], f.get("table"), f.get("field"), f.get("section"), f.get("value") if f["class"] in ("cmdline", "config") else None, f.get("pair"), f.get("frac"), f.get("variant"),
+                   _row_type(world, f) if f["class"] in ("nonpositive", "zero_spot", "both_fees", "bad_type") else None)
             if key in seen:
                 continue
             seen.add(key)
